@@ -3,6 +3,7 @@
   `bt …` lines drive the Bigtable Model; `reset` starts from fresh state.
 -/
 import Emu.Driver.Bt
+import Emu.Bt.Activity
 import Emu.Driver.Gcs
 import Emu.Driver.Lock
 import Emu.Driver.Conc
@@ -12,6 +13,8 @@ open Emu Emu.Driver
 
 structure St where
   bt : Emu.Bt.Server := {}
+  /-- activity stamps of the Bigtable tables (`Emu.Bt.Activity`) -/
+  btAct : Emu.Bt.ActMap := []
   gcs : Emu.Gcs.Store := {}
   lock : LockSt := {}
   conc : ConcSt := {}
@@ -20,11 +23,23 @@ def handle (st : St) (line : String) : St × String :=
   match tokens line with
   | [] => (st, "")
   | "reset" :: _ => ({}, "ok")
+  | ["bt", "idle", n, d] =>
+    match Bytes.ofHex n, d.toNat? with
+    | some n, some d =>
+      let (y, r) := Emu.Bt.xstep ⟨st.bt, st.btAct⟩ (.idle n d)
+      ({ st with bt := y.srv, btAct := y.act }, showResp r)
+    | _, _ => (st, "bad-op")
+  | ["bt", "trygc", n] =>
+    match Bytes.ofHex n with
+    | some n =>
+      let (y, r) := Emu.Bt.xstep ⟨st.bt, st.btAct⟩ (.tryGc n)
+      ({ st with bt := y.srv, btAct := y.act }, showResp r)
+    | none => (st, "bad-op")
   | "bt" :: rest =>
     match (do let op ← pBtOp; atEnd; pure op : P Emu.Bt.Op).run rest with
     | some (op, _) =>
-      let (s', r) := Emu.Bt.step st.bt op
-      ({ st with bt := s' }, showResp r)
+      let (y, r) := Emu.Bt.xstep ⟨st.bt, st.btAct⟩ (.base op)
+      ({ st with bt := y.srv, btAct := y.act }, showResp r)
     | none => (st, "bad-op")
   | ["gcs", "plant", b, n, c] =>
     match Bytes.ofHex b, Bytes.ofHex n, Bytes.ofHex c with
